@@ -30,6 +30,7 @@ RULES = {
     "C04-N4": "converter wiring: width/sign -> strtol/strtoul/strtoll/strtoull/strtof/strtod on the token start; consumed length returned",
     "C04-N6": "(builds without strncasecmp) the library's own comparison treats two bytes as equal exactly when they are equal after folding A-Z onto a-z",
     "C04-N7": "the floating readers account for the whole token: a decimal token may contain white space before the exponent and after its 'E' (C13-T5), which strtod/strtof do not read - the consumed length is compared with the token length or the conversion is length-aware",
+    "C04-N8": "SCPI_ParamNumber delivers a numeric literal as a number: on every path selected by a numeric token class `special` stays FALSE and no tag is stored over the value (special tags come from character data only)",
     "C04-N5": "unit lookup is length-exact and case-insensitive; multiplier and unit of the found row are applied",
 }
 
@@ -121,12 +122,15 @@ def rule_n2(ck, prog, spec):
         nclass += 1
         if isinstance(c, tuple):
             c = [c]
-        ok = any(u == got_u and got_f is not None and abs(got_f - f) <= 1e-9 * abs(f) for u, f in c)
+        # the multiplier is the double nearest to the standard's factor (two units in the last place are allowed for a
+        # factor written as a product); a decimal constant with fewer digits is a different number
+        import math
+        ok = any(u == got_u and got_f is not None and abs(got_f - f) <= 2 * math.ulp(float(f)) for u, f in c)
         if ok:
             ck.holds("C04-N2", st, where, "%s = %g %s" % (name, got_f, got_u))
         else:
-            ck.violated("C04-N2", st, where, "suffix %s decodes to %s x %s; IEEE 488.2 gives %s"
-                        % (name, got_f, got_u, " or ".join("%g x %s" % (f, u) for u, f in c)))
+            ck.violated("C04-N2", st, where, "suffix %s decodes to %r x %s; IEEE 488.2 gives %s"
+                        % (name, got_f, got_u, " or ".join("%r x %s" % (float(f), u) for u, f in c)))
     ck.holds("C04-N2", "scpi_units_def/unclassified#0", where,
              "rows the auditor cannot classify (reported, not judged): %s" % unclassified, nontrivial=False)
     ck.floor("C04-N2", 60)
@@ -537,6 +541,52 @@ def rule_n5(ck, prog, S):
             ck.holds("C04-N5", st, K.loc(pn), "%d path(s): decimal, white space, suffix recognisers on one cursor; the suffix token goes "
                      "to the unit lookup" % npaths)
         ck.analysed(pn)
+    # a numeric literal is delivered as a number, never as a special tag
+    if pn is not None and sums:
+        st = K.site(pn, "numeric-literal-stays-a-number", 0)
+        numeric = {prog.enumconst.get(k_) for k_ in ("SCPI_TOKEN_DECIMAL_NUMERIC_PROGRAM_DATA", "SCPI_TOKEN_HEXNUM", "SCPI_TOKEN_OCTNUM",
+                                                      "SCPI_TOKEN_BINNUM", "SCPI_TOKEN_DECIMAL_NUMERIC_PROGRAM_DATA_WITH_SUFFIX")} - {None}
+        bad = None
+        nnum = 0
+        vname = pn.params[2]["name"] if len(pn.params) > 2 else "value"
+
+        def marks_special(fn_, vn, depth=0):
+            """a store of something other than FALSE to vn->special / of anything to vn->content.tag in fn_ or its static helpers"""
+            for n_, t_ in C.stores(fn_):
+                tp = t_.get("path") or ""
+                if tp == vn + "->special" and C.const_of(n_.child(1)) != 0:
+                    return n_
+                if tp == vn + "->content.tag":
+                    return n_
+            return None
+        for ps in sums:
+            tset = None
+            for a, pol in ps.facts:
+                if isinstance(pol, tuple) and pol[0] == "case" and (a.get("path") or "").endswith("type"):
+                    tset = set(range(pol[1], pol[2] + 1))
+            if not tset or not tset <= numeric:
+                continue
+            nnum += 1
+            for ev in ps.events:
+                if ev[0] == "store":
+                    tp = C.store_target(ev[1]).get("path") or ""
+                    if (tp == vname + "->special" and C.const_of(ev[1].child(1)) != 0) or tp == vname + "->content.tag":
+                        bad = bad or (ev[1], sorted(tset))
+                elif ev[0] == "call":
+                    g = prog.fn(ev[1].get("callee") or "")
+                    if g is not None and g.static:
+                        for prm, a_ in zip(g.params, C.call_args(ev[1])):
+                            if a_.strip_all_casts().get("path") == vname and marks_special(g, prm["name"]) is not None:
+                                bad = bad or (ev[1], sorted(tset))
+        if bad:
+            ck.violated("C04-N8", st, K.loc(pn, bad[0]),
+                        "on a path for a numeric token class SCPI_ParamNumber marks the value as special / stores a tag (`%s`): the "
+                        "tag shares storage with the number, so the literal no longer decodes to its value (`9.9E37` is a number)"
+                        % bad[0].src[:80])
+        elif not nnum:
+            ck.anchor_lost("C04-N8", "SCPI_ParamNumber: no path selected by a numeric token class")
+        else:
+            ck.holds("C04-N8", st, K.loc(pn), "%d numeric paths: special stays FALSE, no tag stored" % nnum)
     # transformNumber applies mult and unit of the found row
     t = prog.fn("transformNumber")
     if t is not None:
